@@ -248,7 +248,7 @@ int hx_run(const hx_script *s, hx_obs *o) {
     if (inflight_skip()) { hx_cur = NULL; return 1; }
 
     htp_cfg_t *cfg = hx_cfg_get(&s->cfg);
-    lt_reset(&lt_run); hx_live_bytes = 0; hx_alloc_seq = 0;
+    lt_reset(&lt_run); hx_live_bytes = 0; hx_alloc_seq = 0; hx_zlive = 0;
     hx_nfault = s->nfault; hx_fault_k[0] = s->fault[0]; hx_fault_k[1] = s->fault[1]; hx_fault_fired = 0;
     vclk_sec = 1000000000L; vclk_usec = 0; vclk_calls = 0; vclk_jump_at = 0; vclk_jump_us = 0;
     drv_susp[0] = drv_susp[1] = 0; drv_sticky[0] = drv_sticky[1] = 0; drv_closed[0] = drv_closed[1] = 0; hb_reset(&drv_rem[0]); hb_reset(&drv_rem[1]);
@@ -313,6 +313,7 @@ int hx_run(const hx_script *s, hx_obs *o) {
     { uint64_t w0 = hx_work; htp_connp_destroy_all(c); o->work_teardown = hx_work - w0; }
     hx_in_lib = 0;
     hx_connp = NULL;
+    if (hx_zlive != 0 && !s->nfault) hx_verdict_add("C01", "zlib_stream_left", "%d zlib inflate stream(s) opened by the library are still open after htp_connp_destroy_all", hx_zlive);
     if (s->cfg.extract_files) { int left = hx_extract_leftovers(); if (left && !s->nfault) hx_verdict_add("C01", "file_left", "%d extracted file(s) still on disk after htp_connp_destroy_all", left); }
 done:
     watchdog_disarm();
